@@ -15,7 +15,7 @@ TRUSTED_BASE = [
     "second implementation: apache-avro 0.17 (harness commands apache_read / apache_write); Python zlib/bz2/lzma decode deflate/bzip2/xz block data independently"
 ]
 ASSUMPTIONS = [
-    "compression libraries, crc32fast are outside the model: framing and interoperability of compressed blocks are checked on the crate (reference parser + independent decoders + apache-avro), not proved",
+    "compression libraries, crc32fast are abstract: the crate's code around them is modelled and proved under contracts (CodecLoop.v, DecodeLoop.v: see C05/C17, hooks H3/H4); framing and interoperability of compressed blocks are checked on the crate (reference parser + independent decoders + apache-avro), not proved",
     "apache-avro limitations excluded from the comparison: zero-byte datums in compressed blocks, map entry order, leading-dot / empty-namespace spellings"
 ]
 
